@@ -36,6 +36,8 @@ type LinOp struct {
 	K   string `json:"k"` // put get del
 	Key int    `json:"key"`
 	Tag int    `json:"tag,omitempty"`
+	// put: the value is empty (present, zero bytes long) - not unique, the model copes
+	Empty bool `json:"empty,omitempty"`
 }
 
 type linIn struct {
@@ -159,6 +161,9 @@ func runC06(t *testing.T, c LinCase) *kit.Result {
 					switch op.K {
 					case "put":
 						v := linVal(op.Tag, c.ValPad)
+						if op.Empty {
+							v = []byte{}
+						}
 						in.val = linValName(v)
 						kb := linKey(op.Key)
 						if err := e.Put(kb, v); err != nil {
@@ -317,7 +322,7 @@ func genLinCase(r *kit.Rand, tier string) LinCase {
 			switch r.Pick(5, 5, 2) {
 			case 0:
 				tag++
-				ops = append(ops, LinOp{K: "put", Key: k, Tag: tag})
+				ops = append(ops, LinOp{K: "put", Key: k, Tag: tag, Empty: r.Bool(0.06)})
 			case 1:
 				ops = append(ops, LinOp{K: "get", Key: k})
 			default:
@@ -367,6 +372,6 @@ func TestC06(t *testing.T) {
 			return out
 		},
 		Strip: func(c LinCase) any { d := c; d.Sched = kit.Sched{}; return d },
-		Rule:  "2-6 (thorough: 2-8) client tasks issue puts (unique values), gets and deletes on 1-4 keys while the engine's flush goroutine, log rotation and the compaction worker (1 s interval) run, plus a maintenance task (explicit flush/compact) and injected stalls; memtables of 256B-4KB rotate every few writes. Invoke/return stamped with a global event counter; final reads - in half of the cases also after a close and reopen - are appended; porcupine checks the history against one register per key (at most ~55 operations per key, 20 s cap; timeouts are counted inconclusive, never reported). non-trivial = at least one pair of overlapping operations of different clients",
+		Rule:  "2-6 (thorough: 2-8) client tasks issue puts (unique values; 6% empty values), gets and deletes on 1-4 keys while the engine's flush goroutine, log rotation and the compaction worker (1 s interval) run, plus a maintenance task (explicit flush/compact) and injected stalls; memtables of 256B-4KB rotate every few writes. Invoke/return stamped with a global event counter; final reads - in half of the cases also after a close and reopen - are appended; porcupine checks the history against one register per key (at most ~55 operations per key, 20 s cap; timeouts are counted inconclusive, never reported). non-trivial = at least one pair of overlapping operations of different clients",
 	})
 }
